@@ -38,6 +38,21 @@ CHECKS = {
  "C14": ("exploration", "enumeration of B x B boundary pairs plus proptest-generated u64 pairs and zero-column row counts; oracle = decoded OK packet (own decoder + mysql_common OkPacket parser) carries exactly the reported numbers",
          "All pairs over the length-encoded-integer class boundaries (250/251, 2^16, 2^24, 2^32, 2^63, 2^64-1) in text and binary mode, chains of up to 4 completions, zero-column resultsets with 0-70000 ended rows in end_row / write_row mixes.",
          "None beyond the reference OK decoder."),
+ "C02": ("exploration", "proptest-generated command sequences over all nine commands with query text from three classes (built-in, certainly-not-built-in incl. look-alikes, grey) and non-UTF-8 payloads; model-based oracle (expected callback log, whole-log equality)",
+         "Generated search over command sequences with arbitrary text and shim-chosen u32 statement ids; an executable model maps the command list to the exact callback log the shim must record (callback kind, order, verbatim arguments, bare schema names), so extra, missing, reordered or altered callbacks are all visible.",
+         "Grey spellings may be treated either way; executes of dead ids are C10's domain."),
+ "C08": ("exploration", "proptest-generated parameter blocks for every bindable type code x signedness x NULL pattern x legal length form; round-trip oracle (reference encoder -> server decoder -> recording shim, incl. conversion to the Rust types)",
+         "Generated search over 0-600 declared parameters with every type code the protocol defines a binary encoding for, full-width integer bit patterns, all float bit patterns, strings across the length-encoding classes and every legal DATE/DATETIME/TIME length form; the shim must be shown the declared number of parameters with the bound type code, the exact value and a faithful conversion to the Rust type.",
+         "Conversions are only compared where the Rust target type can represent the value (not the zero date, negative TIME or NaN)."),
+ "C10": ("exploration", "proptest-generated statement-lifecycle histories (valid prefix, optional use of a dead id, tail); model-based oracle (reference map live: id -> declared parameter count)",
+         "Generated search over interleavings of PREPARE(ok|error)/EXECUTE/SEND_LONG_DATA/CLOSE over a pool of ids incl. 0 and u32::MAX; the callback log must equal the model's up to the first use of a non-live id, where the connection must end with Err and no further callback; CLOSE always reaches on_close and adds no bytes.",
+         "Executions always bind types (protocol requirement after prepare), so stale bound types are not observable; stale long data and parameter counts are."),
+ "C16": ("exploration", "proptest-generated execution histories over several statements, each execution choosing rebind or reuse; model-based oracle (types[stmt])",
+         "Generated search over histories of 2-30 executions on 2-4 statements with arbitrary bound types; values are encoded per the model's types in force and the shim must be shown exactly the model's (type, value) lists, so cross-statement leakage, partial replacement and mis-framed reuse are visible.",
+         "The shim iterates all parameters of every execution."),
+ "C17": ("exploration", "proptest-generated long-data histories across statements and parameter indexes, plus enumerated multi-packet chunks; model-based oracle (pending[stmt][param])",
+         "Generated search over interleavings of chunks (sizes 0 to 70000, one >= 2^24 bytes enumerated) for several statements and parameters with executions whose long-data parameters are omitted inline; the addressed parameters must arrive as the in-order concatenation, everything else as encoded, exactly once, never in another statement.",
+         "Long data is addressed to string-typed, non-NULL parameters as client libraries do."),
 }
 NOT_YET = {}
 
